@@ -36,8 +36,7 @@ Derive(c) ==
         pb |-> [r \in 1..c.n |-> [v \in 1..c.nlev |-> IF HasPB(c) THEN (IF PbText(c, v, r) = "-----" THEN "" ELSE PbText(c, v, r)) ELSE ""]],
         grp |-> [r \in 1..c.n |-> IF HasPB(c) THEN [v \in 1..c.nlev |-> PbText(c, v, r)] ELSE <<>>],
         sub |-> [r \in 1..c.n |-> IF HasSub(c) THEN SubText(c, r) ELSE ""],
-        subtxt |-> [r \in 1..c.n |-> IF HasSub(c) THEN SubText(c, r) ELSE ""],
-        phantom |-> IF (HasPB(c) /\ ~(~c.newpage \/ c.pbrow # "column")) \/ HasSub(c) THEN 1 ELSE 0]
+        subtxt |-> [r \in 1..c.n |-> IF HasSub(c) THEN SubText(c, r) ELSE ""]]
 
 
 =============================================================================
